@@ -618,6 +618,7 @@ fn run_prog<T: FloatT>(exp: &Value) -> Value {
 }
 
 fn mode_run(inp: &str, out: &str) {
+    let isolate = std::env::var("SFV_ISOLATE").map(|v| v == "1").unwrap_or(false);
     let r = BufReader::new(std::fs::File::open(inp).expect("open input"));
     let mut w = BufWriter::new(std::fs::File::create(out).expect("create output"));
     for line in r.lines() {
@@ -626,10 +627,19 @@ fn mode_run(inp: &str, out: &str) {
             continue;
         }
         let exp: Value = serde_json::from_str(&line).expect("json");
-        let o = if exp.get("float").and_then(|f| f.as_str()) == Some("f32") {
-            run_prog::<f32>(&exp)
+        let go = move |exp: Value| {
+            if exp.get("float").and_then(|f| f.as_str()) == Some("f32") {
+                run_prog::<f32>(&exp)
+            } else {
+                run_prog::<f64>(&exp)
+            }
+        };
+        // SFV_ISOLATE=1: every program on a thread of its own, so that nothing thread-local survives from one program to the
+        // next (C17: the same program is also run in a second process, in another order, on one thread; the answers must agree)
+        let o = if isolate {
+            std::thread::Builder::new().stack_size(64 << 20).spawn(move || go(exp)).expect("spawn").join().expect("join")
         } else {
-            run_prog::<f64>(&exp)
+            go(exp)
         };
         writeln!(w, "{}", o).unwrap();
     }
